@@ -60,7 +60,12 @@ files):
   blocking call made with a cancellable context, whose end-of-call `cancel()`
   wakes all waiters as a side effect and so papers over missing signals (C07);
   no panic whose value is the very error `ExcludedErrors` lists (C03, wave 7);
-  no leaf that is a non-nil error reporting `Ok()` of itself (C12, wave 7).
+  no leaf that is a non-nil error reporting `Ok()` of itself (C12, wave 7);
+  and, wave 8 (corners of the option/value space): no non-positive
+  `WorkerPoolSize` / `BufferSize` (C09), no `DoTimes`/`StartGroup` count below
+  one (C14), no multi-error type of the caller's with nils in its own slice
+  (C12), no input that is a plain one-caller-at-a-time generator closure (C01),
+  no pre-advanced input that is itself a running stage (C04).
 * **operations missing from the concurrent mix**: no sorts in the concurrent
   Set histories (C18); no parked iterators next to blocked producers (C07); no
   `Close` racing the adds of an iterated container (C20); no `Wait` landing
@@ -79,7 +84,9 @@ files):
   drained with `ReadOne` only, never with the two-call `Next()`/`Value()` loop
   (C01, wave 7); every read of a pipeline made with the same long-lived
   context, never with a per-call context that ends while a user function is
-  failing (C02, wave 7).
+  failing (C02, wave 7); no second `Unsubscribe` for the same channel (C08),
+  no second `Synchronize()` on a set in use (C13), no Split output read by two
+  tasks (C01) - wave 8.
 * **oracle narrower than the statement**: only calls *invoked after* the last
   `Limit` execution were compared with its result (C15); under removals the
   iterator was only required not to panic and to return on Close/cancel, not
